@@ -69,7 +69,9 @@ Lemma rt_hypotheses :
   /\ NoDup (map (fun h : hold_row => af_id (fst (fst h))) rt_hs)
   /\ Forall (fun h : hold_row => holding_ok (fst (fst h)) (snd (fst h))) rt_hs
   /\ ps_all rt_st1 = total_held rt_hs
-  /\ (forall af, obs rt_st1 af = held_obs rt_hs af (Q2Qc 0, if af_reg af then None else Some (Q2Qc 0)))
+  /\ (forall af, goodaf (fun _ => false) af ->
+                 obs rt_st1 af = held_obs rt_hs af (Q2Qc 0, if af_reg af then None else Some (Q2Qc 0)))
+  /\ Forall (gooddelta (fun _ => false)) (rt_dsK ++ rt_dsT)
   /\ Forall (fun h : hold_row => exists d, In d rt_dsP /\ snd h = d_sd d) rt_hs
   /\ (forall h d, In h rt_hs -> In d (rt_dsK ++ rt_dsT) -> plain_loss_sell d = true -> within_after (snd h) (d_sd d) = false)
   /\ keep_all rt_dsK = Ok rt_K'
@@ -90,10 +92,11 @@ Proof.
   split. { repeat constructor. intros []. }
   split. { repeat constructor; vm_compute; reflexivity || discriminate. }
   split; [vm_compute; reflexivity|].
-  split. { intros af. unfold obs, held_obs, find_hold, latest_for. cbn [rt_hs find fst snd].
+  split. { intros af _. unfold obs, held_obs, find_hold, latest_for. cbn [rt_hs find fst snd].
            change (ps_map rt_st1) with [(default_id, {| s_sh := wq 10 1; s_all := wq 10 1; s_acb := Some (wq 100 1) |})].
            cbn [alookup af_id default_aff].
            destruct (N.eqb default_id (af_id af)) eqn:E; rewrite N.eqb_sym, E; reflexivity. }
+  split. { vm_compute. repeat constructor. }
   split. { repeat constructor. eexists. split; [left; reflexivity|]. reflexivity. }
   split. { intros h d [<-|[]] Hd Hp. vm_compute in Hd.
            repeat (destruct Hd as [<-|Hd]; [vm_compute in Hp; try discriminate; vm_compute; reflexivity|]). destruct Hd. }
